@@ -1,6 +1,6 @@
 import MgpuProofs.C11CpCopy
 /-! The combined invariant of the command processor in every reachable state, absence of faults,
-absence of dropped messages while the outgoing buffers have room, and the consequences used by the
+absence of dropped messages, and the consequences used by the
 property theorems in `Props/C11Cp.lean`. -/
 namespace C11
 
@@ -68,22 +68,16 @@ theorem reach_all (n cin cdrv cdma ccache : Nat) (ops : List CpOp) :
     refine ⟨h.tr t, c1.trans h1, c2.trans h2, fun hle => ?_⟩
     exact h.no_fault_tr (by rw [h1, h2]; exact hle) (h3 hle) t
 
-/-! ## nothing is dropped while the outgoing buffers have room -/
+/-! ## nothing is ever dropped: every `Send` of the repaired code is preceded by its room check -/
 
-/-- `a` free entries in ToDriver, `b` in ToDMA, nothing dropped so far -/
-def CpRoom (s : Cp) (a b : Nat) : Prop :=
-  s.drvOut.length + a ≤ s.capDrv ∧ s.dmaOut.length + b ≤ s.capDma ∧ ∀ ev ∈ s.log, ev.dropped = false
+/-- no event of the log records a failed `Send` -/
+def NoDrop (s : Cp) : Prop := ∀ ev ∈ s.log, ev.dropped = false
 
-theorem CpRoom.mono {s : Cp} {a b a' b' : Nat} (h : CpRoom s a b) (ha : a' ≤ a) (hb : b' ≤ b) : CpRoom s a' b' :=
-  ⟨by have := h.1; omega, by have := h.2.1; omega, h.2.2⟩
-
-theorem handle_room {s : Cp} {a b : Nat} (h : CpRoom s (a + 1) (b + 1)) : CpRoom s.handle.1 a b := by
-  obtain ⟨h1, h2, h3⟩ := h
-  rcases Cp.handle_cases s with h | ⟨m, rest, hf, hd, hn, hk, h | h | h⟩ | ⟨m, rest, b', hf, hd, hn, hk, hb, h⟩
-  · rw [h]; show CpRoom s a b; exact ⟨by omega, by omega, h3⟩
+theorem handle_nodrop {s : Cp} (h3 : NoDrop s) : NoDrop s.handle.1 := by
+  rcases Cp.handle_cases s with h | ⟨m, rest, hf, hd, hn, hk, h | h | h⟩ | ⟨m, rest, hf, hd, hn, hk, hb, h⟩
+  · rw [h]; exact h3
   · obtain ⟨k, _, _, h⟩ := h
     rw [h]
-    refine ⟨by simp [Cp.flushAsk]; omega, by simp [Cp.flushAsk]; omega, ?_⟩
     intro ev hev
     simp only [Cp.flushAsk, List.mem_append, List.mem_cons, List.mem_map] at hev
     rcases hev with hev | rfl | ⟨i, _, rfl⟩
@@ -92,18 +86,14 @@ theorem handle_room {s : Cp} {a b : Nat} (h : CpRoom s (a + 1) (b + 1)) : CpRoom
     · rfl
   · obtain ⟨_, h⟩ := h
     rw [h]
-    refine ⟨by simp [Cp.flushAsk]; omega, by simp [Cp.flushAsk]; omega, ?_⟩
     intro ev hev
     simp only [Cp.flushAsk, List.mem_append, List.mem_cons, List.mem_map] at hev
     rcases hev with hev | rfl | ⟨i, _, rfl⟩
     · exact h3 ev hev
     · rfl
     · rfl
-  · obtain ⟨_, b', hb, h⟩ := h
+  · obtain ⟨_, _, h⟩ := h
     rw [h]
-    have : b' = true := hb.2 (by omega)
-    subst this
-    refine ⟨by simp; omega, by simp; omega, ?_⟩
     intro ev hev
     simp only [List.mem_append, List.mem_cons, List.not_mem_nil, or_false] at hev
     rcases hev with hev | rfl | rfl
@@ -111,52 +101,39 @@ theorem handle_room {s : Cp} {a b : Nat} (h : CpRoom s (a + 1) (b + 1)) : CpRoom
     · rfl
     · rfl
   · rw [h]
-    have : b' = true := hb.2 (by omega)
-    subst this
-    refine ⟨by simp [Cp.copyFwd]; omega, by simp [Cp.copyFwd]; omega, ?_⟩
     intro ev hev
     simp only [Cp.copyFwd, List.mem_append, List.mem_singleton] at hev
     rcases hev with hev | rfl
     · exact h3 ev hev
     · rfl
 
-theorem dmaRsp_room {s : Cp} {a b : Nat} (h : CpRoom s (a + 1) b) : CpRoom s.dmaRsp.1 a b := by
-  obtain ⟨h1, h2, h3⟩ := h
-  rcases Cp.dmaRsp_cases s with h | ⟨c, rest, hf, hd, ⟨o, k, b', hl, hb, h⟩ | ⟨hH, hD, h⟩⟩
-  · rw [h]; show CpRoom s a b; exact ⟨by omega, h2, h3⟩
+theorem dmaRsp_nodrop {s : Cp} (h3 : NoDrop s) : NoDrop s.dmaRsp.1 := by
+  rcases Cp.dmaRsp_cases s with h | ⟨c, rest, hf, hd, hb, ⟨o, k, hl, h⟩ | ⟨hH, hD, h⟩⟩
+  · rw [h]; exact h3
   · rw [h]
-    have : b' = true := hb.2 (by omega)
-    subst this
-    refine ⟨by simp [Cp.copyDone]; omega, by simp [Cp.copyDone]; omega, ?_⟩
     intro ev hev
     simp only [Cp.copyDone, List.mem_append, List.mem_singleton] at hev
     rcases hev with hev | rfl
     · exact h3 ev hev
     · rfl
-  · rw [h]; exact ⟨by simp; omega, by simpa using h2, h3⟩
+  · rw [h]; exact h3
 
-theorem cacheRsp_room {s : Cp} {a b : Nat} (h : CpRoom s (a + 1) b) : CpRoom s.cacheRsp.1 a b := by
-  obtain ⟨h1, h2, h3⟩ := h
-  rcases Cp.cacheRsp_cases s with h | ⟨x, rest, n', hf, hd, hn, ⟨hz, h⟩ | ⟨hz, hc, h⟩ | ⟨hz, f, b', hc, hb, h⟩⟩
-  · rw [h]; show CpRoom s a b; exact ⟨by omega, h2, h3⟩
+theorem cacheRsp_nodrop {s : Cp} (h3 : NoDrop s) : NoDrop s.cacheRsp.1 := by
+  rcases Cp.cacheRsp_cases s with h | ⟨x, rest, n', hf, hd, hn, ⟨hz, h⟩ | ⟨hz, hc, h⟩ | ⟨hz, f, hc, hb, h⟩⟩
+  · rw [h]; exact h3
   · rw [h]
-    refine ⟨by simp; omega, by simpa using h2, ?_⟩
     intro ev hev
     simp only [List.mem_append, List.mem_singleton] at hev
     rcases hev with hev | rfl
     · exact h3 ev hev
     · rfl
   · rw [h]
-    refine ⟨by simp; omega, by simpa using h2, ?_⟩
     intro ev hev
     simp only [List.mem_append, List.mem_singleton] at hev
     rcases hev with hev | rfl
     · exact h3 ev hev
     · rfl
   · rw [h]
-    have : b' = true := hb.2 (by omega)
-    subst this
-    refine ⟨by simp; omega, by simpa using h2, ?_⟩
     intro ev hev
     simp only [List.mem_append, List.mem_cons, List.not_mem_nil, or_false] at hev
     rcases hev with hev | rfl | rfl
@@ -164,16 +141,16 @@ theorem cacheRsp_room {s : Cp} {a b : Nat} (h : CpRoom s (a + 1) b) : CpRoom s.c
     · rfl
     · rfl
 
-theorem pass_room {s : Cp} {a b : Nat} (h : CpRoom s (a + 3) (b + 1)) : CpRoom s.pass.1 a b :=
-  cacheRsp_room (dmaRsp_room (handle_room h))
+theorem pass_nodrop {s : Cp} (h : NoDrop s) : NoDrop s.pass.1 :=
+  cacheRsp_nodrop (dmaRsp_nodrop (handle_nodrop h))
 
-theorem tick_room {s : Cp} (h : CpRoom s 6 2) : CpRoom s.tick.1 0 0 := by
+theorem tick_nodrop {s : Cp} (h : NoDrop s) : NoDrop s.tick.1 := by
   unfold Cp.tick
   split
-  · exact h.mono (by omega) (by omega)
+  · exact h
   · split
-    · exact (pass_room (a := 3) (b := 1) h).mono (by omega) (by omega)
-    · exact pass_room (a := 0) (b := 0) (pass_room (a := 3) (b := 1) h)
+    · exact pass_nodrop h
+    · exact pass_nodrop (pass_nodrop h)
 
 theorem step_log_of_ne_tick (e : CpEnv) (op : CpOp) (h : op ≠ .tick) : (e.step op).1.s.log = e.s.log := by
   cases op with
@@ -195,17 +172,15 @@ theorem step_log_of_ne_tick (e : CpEnv) (op : CpOp) (h : op ≠ .tick) : (e.step
       · rfl
       · split <;> rfl
 
-theorem run_nodrop (ops : List CpOp) (e : CpEnv) (h0 : ∀ ev ∈ e.s.log, ev.dropped = false) (hr : e.roomy ops) :
+theorem run_nodrop (ops : List CpOp) (e : CpEnv) (h0 : ∀ ev ∈ e.s.log, ev.dropped = false) :
     ∀ ev ∈ (e.run ops).s.log, ev.dropped = false := by
   induction ops generalizing e with
   | nil => exact h0
   | cons op ops ih =>
-    obtain ⟨hr1, hr2⟩ := hr
-    refine ih _ ?_ hr2
+    refine ih _ ?_
     by_cases hop : op = .tick
     · subst hop
-      obtain ⟨r1, r2⟩ := hr1 rfl
-      exact (tick_room (s := e.s) ⟨r1, r2, h0⟩).2.2
+      exact tick_nodrop (s := e.s) h0
     · rw [step_log_of_ne_tick e op hop]; exact h0
 
 /-! ## consequences for the property theorems -/
